@@ -17,8 +17,14 @@ def gen_reinsert(rng):
     idx = rng.sample(range(n), k)
     if rng.random() < 0.2:
         idx.sort()
-    return {"kind": "reinsert", "n": n, "indices": idx, "arrays": rng.sample(ARRS, rng.randint(0, len(ARRS))),
-            "seed": rng.randint(0, 10**9), "as_array": rng.random() < 0.7}
+    c = {"kind": "reinsert", "n": n, "indices": idx, "arrays": rng.sample(ARRS, rng.randint(0, len(ARRS))),
+         "seed": rng.randint(0, 10**9), "as_array": rng.random() < 0.7}
+    r2 = random.Random(c["seed"] ^ 0xC19)
+    if r2.random() < 0.3:
+        # numpy / ASE index sets may count from the end: the same atoms addressed by negative indices (all, or some of them)
+        allneg = r2.random() < 0.5
+        c["raw_indices"] = [i - n if (allneg or r2.random() < 0.5) else i for i in idx]
+    return c
 
 
 def gen_molecules(rng):
@@ -138,7 +144,7 @@ def run(res: C.Result):
             dist["arrays"][a] = dist["arrays"].get(a, 0) + 1
         if r["after"] != r["before"]:
             bad = [n for n in r["before"] if r["after"].get(n) != r["before"][n]] + [n for n in r["after"] if n not in r["before"]]
-            res.fail("reinsert:not-inverse", f"arrays {bad} differ after delete+reinsert of indices {c['indices']}",
+            res.fail("reinsert:not-inverse", f"arrays {bad} differ after delete+reinsert of indices {c.get('raw_indices', c['indices'])}",
                      {"input": c, "observed": {n: {"before": r["before"].get(n), "after": r["after"].get(n)} for n in bad}})
         if c["indices"] != sorted(c["indices"]) and len(c["indices"]) > 1:
             distinct.add(("r", c["n"], tuple(c["indices"])))
@@ -165,6 +171,9 @@ def run(res: C.Result):
         n = len(c["symbols"])
         rs = c["required_size"]
         lo, hi = (0, n) if rs is None else ((rs, rs) if isinstance(rs, int) else tuple(rs))
+        if r.get("default_modified") or r.get("default_returned"):
+            res.fail("molecules:default-array-modified", "search_molecules wrote into the caller's default array (a later call with the same array no longer gets the supplied default)",
+                     {"input": c, "observed": {x: r.get(x) for x in ("default_modified", "default_returned")}})
         default = c["default"] if c["default"] is not None else [-1] * n
         lab = r["labels"]
         comp_of = {i: a for a, cc in enumerate(comp) for i in cc}
